@@ -16,6 +16,7 @@ BF_PATTERNS = {
     "tie-at-max": ["0.4", "0.1", "0.4", "0.4", "0.05", "0.4", "0.1", "0.05"],
     "all-equal": ["0.125"] * 8,
     "wide-range": ["1e-12", "1", "3.3392e-05", "6.5e-08", "0.988228297", "1.0e-3", "2E-4", "0.011738247"],
+    "all-rare": ["6.84e-11", "3.9e-10", "1e-12", "2.5e-9", "6.84e-11", "7.7e-13", "4.6e-10", "1.1e-11"],   # sums far below 1e-6
     "many-digits": ["0.123456789", "0.987654321", "0.333333333333", "0.1234567", "0.12345675", "0.99999995", "0.00010000005", "0.5000000499"],
 }
 N_LINES = [1, 2, 3, 4, 5, 6, 7, 8]
